@@ -86,8 +86,8 @@ class C02(Prop):
 
     def plan(self, tier):
         if tier == "quick":
-            return {"units": 40000, "budget_s": 75, "block": 400}
-        return {"units": 2000000, "budget_s": 1500, "block": 1000}
+            return {"units": 400000, "budget_s": 90, "block": 2000}
+        return {"units": 12000000, "budget_s": 1500, "block": 5000}
 
     def gen(self, rng, idx, tier):
         stack = rng.choice(["client", "client", "pooled", "hash"])
